@@ -164,6 +164,7 @@ func (g *Gen) mapUpdate(st *State, x *ssa.MapUpdate) {
 	if v.K == VAddr {
 		v = g.firstClass(v, "map value")
 	}
+	g.escape(v)
 	dom, n, s := g.mapDom(st, mi)
 	was := Select(Select(dom, m.T), kt)
 	g.heapSet(st, n, s, Store(dom, m.T, Store(Select(dom, m.T), kt, True)))
@@ -372,6 +373,7 @@ func (g *Gen) goInstr(st *State, x *ssa.Go) {
 func (g *Gen) send(st *State, x *ssa.Send) {
 	ch := g.val(st, x.Chan)
 	_ = ch
+	g.escape(g.val(st, x.X))
 	g.Abstracted["channel send: blocking and closed-channel state not modelled"] = true
 }
 
@@ -397,6 +399,7 @@ func (g *Gen) makeClosure(st *State, x *ssa.MakeClosure) {
 	r := g.allocRef(st, x.Name())
 	for _, b := range x.Bindings {
 		v := g.val(st, b)
+		g.escape(v)
 		if v.K == VAddr && !(v.A.Root == RObj && len(v.A.Path) == 0) {
 			g.unsupported("closure captures a local cell by reference (%s)", b.Name())
 		}
